@@ -6035,12 +6035,15 @@ class Device(utils.CompositeEventEmitter):
         if role == hci.Role.PERIPHERAL and self.legacy_advertiser:
             if self.legacy_advertiser.auto_restart:
                 advertiser = self.legacy_advertiser
-                connection.once(
-                    Connection.EVENT_DISCONNECTION,
-                    lambda _: utils.cancel_on_event(
-                        self, Device.EVENT_FLUSH, advertiser.start()
-                    ),
-                )
+
+                def restart_advertising(_: int) -> None:
+                    # Not if advertising was stopped (or started anew) in the meantime
+                    if self.legacy_advertiser is advertiser:
+                        utils.cancel_on_event(
+                            self, Device.EVENT_FLUSH, advertiser.start()
+                        )
+
+                connection.once(Connection.EVENT_DISCONNECTION, restart_advertising)
             else:
                 self.legacy_advertiser = None
 
